@@ -82,7 +82,9 @@ class Sampler(ABC):
         if self.initial_point is None:
             self.initial_point = self._get_default_initial_point(self.dim)
 
-        # State variables
+        # State variables (an integer-typed start value is converted: the chain would otherwise be truncated to integers)
+        if np.ndim(self.initial_point) >= 1 and np.issubdtype(np.asarray(self.initial_point).dtype, np.integer):
+            self.initial_point = np.asarray(self.initial_point, dtype=float)
         self.current_point = self.initial_point
 
         # History variables
@@ -464,7 +466,9 @@ class ProposalBasedSampler(Sampler, ABC):
         if self.proposal is None:
             self.proposal = self._default_proposal
 
-        # State variables
+        # State variables (an integer-typed start value is converted: the chain would otherwise be truncated to integers)
+        if np.ndim(self.initial_point) >= 1 and np.issubdtype(np.asarray(self.initial_point).dtype, np.integer):
+            self.initial_point = np.asarray(self.initial_point, dtype=float)
         self.current_point = self.initial_point
         self.scale = self.initial_scale
 
